@@ -579,6 +579,20 @@ fn passes_has_compact_param(gm: &crate::genmod::GMod) -> bool {
     req.iter().any(|r| !direct.contains(r))
 }
 
+/// does a `DecodedBits<store, order>` in the (space-free) tokens name a generic parameter `_n`?
+fn generic_bits(tokens: &str) -> bool {
+    let mut rest = tokens;
+    while let Some(i) = rest.find("DecodedBits<") {
+        rest = &rest[i + "DecodedBits<".len()..];
+        // the two arguments are paths without nested angle brackets
+        let end = rest.find('>').unwrap_or(rest.len());
+        if rest[..end].split(',').any(|a| a.starts_with('_') && a[1..].chars().all(|c| c.is_ascii_digit()) && a.len() > 1) {
+            return true;
+        }
+    }
+    false
+}
+
 fn generic_ord_key(gm: &crate::genmod::GMod) -> bool {
     use crate::genmod::*;
     fn walk(t: &syn::Type, generics: &[String]) -> bool {
@@ -753,6 +767,12 @@ pub fn make_cases_ext(seed: u64, stream: u64, n: usize, cf_only: bool, encodings
         }
         // `Vec<Compact<_0>>` beside `#[codec(dumb_trait_bound)]` (which this tier needs for recursive types)
         // sends rustc's trait solver into E0275; the bound `_0: HasCompact` cannot be written by the generator
+        // a coincidence (the store type is also the argument of a type parameter) makes the bit sequence generic:
+        // `DecodedBits<_0, Lsb0>` needs `_0: BitStore`, a bound the generated code cannot carry
+        if generic_bits(&crate::genmod::nospace(&o.tokens)) {
+            *counters.entry("excluded_generic_bit_store_needs_bound".into()).or_insert(0) += 1;
+            continue;
+        }
         if crate::genmod::nospace(&o.tokens).contains("Compact<_") {
             *counters.entry("excluded_compact_type_over_parameter".into()).or_insert(0) += 1;
             continue;
